@@ -69,7 +69,14 @@ RULE = (
     "'derived' = arrays / columns the library hands out (decoded through default / chain / compress, as_array "
     "variants, column of a read file) fed into default / chain / compress / a masked column of a new compressed "
     "file; reuse additionally walks A -> B -> A (encodings and category columns) and reads row_count between the "
-    "steps. A case counts as non-trivial when the array is "
+    "steps; 'operands' = data x mask, column x column (built together / assigned from another category), == of "
+    "data / column / category / block / file objects with n vs m rows and n vs m keys for all n, m in 0..3 (second "
+    "operand larger and smaller), explicit row_count m vs n rows, explicit src_type / type (6 codes) vs dtype (8) "
+    "through Delta / RunLength / ByteArray / a chain; 'ambient' = 9 arrays x chains + compress() under numpy error "
+    "state ignore / warn / raise, warnings as errors, and changed print options: same result as under the default, "
+    "and the call leaves error state, print options and warning filters as it found them; 'ties' = compress() with "
+    "tolerances 0, 1e-12, 0.2, 0.5, 1, 10 on arrays whose rounding error equals the tolerance exactly, all-equal, "
+    "all-zero, zero + value. A case counts as non-trivial when the array is "
     "non-empty and the oracle either compared a decoded non-empty array element-wise with the original or "
     "observed the refusal of a value that the model says the representation cannot hold."
 )
@@ -3414,6 +3421,274 @@ def audit2_replay(case, ctx):
 
 
 # ---------------------------------------------------------------------------
+# third audit: operands of different size / option precedence, ambient numpy state, selection ties
+# ---------------------------------------------------------------------------
+def operands_case(ctx, what, n, m):
+    """F: the second operand is larger / smaller than the first, in both directions.  H: a value given
+    explicitly and present in the input (row_count vs the columns, src_type vs the dtype)."""
+    case = {"k": "operands", "what": what, "n": n, "m": m}
+    if not ctx.journal(case):
+        return
+    pdbx = _enc()["pdbx"]
+    E = _enc()["E"]
+    bad = None
+    refused = False
+    want_refusal = False
+
+    def fbytes(cat):
+        return file_bytes(pdbx.BinaryCIFFile({"b": pdbx.BinaryCIFBlock({"c": cat})}))
+
+    try:
+        if what == "column_mask":
+            want_refusal = n != m  # documented: IndexError for data and mask of different length
+            col = pdbx.BinaryCIFColumn(np.arange(n, dtype=np.int32), np.array([i % 3 for i in range(m)], dtype=np.uint8))
+            g = pdbx.BinaryCIFFile.read(io.BytesIO(fbytes(pdbx.BinaryCIFCategory({"x": col}))))["b"]["c"]["x"]
+            if n != m:
+                bad = "data_and_mask_of_different_length_written"
+            elif g.data.array.tolist() != list(range(n)) or g.mask.array.tolist() != [i % 3 for i in range(m)]:
+                bad = "reads_back_different"
+        elif what in ("category_columns", "category_columns_assigned"):
+            want_refusal = n != m  # documented: all columns must have the same length
+            if what == "category_columns":
+                cat = pdbx.BinaryCIFCategory({"x": np.arange(n, dtype=np.int32), "y": np.array(["s%d" % i for i in range(m)], dtype="U3")})
+            else:  # a column of a bigger / smaller category is assigned into this one
+                other = pdbx.BinaryCIFCategory({"y": np.array(["s%d" % i for i in range(m)], dtype="U3"),
+                                                "z": np.zeros(m)})
+                fbytes(other) if m else None
+                cat = pdbx.BinaryCIFCategory({"x": np.arange(n, dtype=np.int32)})
+                fbytes(cat) if n else None
+                cat["y"] = other["y"]
+            g = pdbx.BinaryCIFFile.read(io.BytesIO(fbytes(cat)))["b"]["c"]
+            if n != m:
+                bad = "columns_of_different_length_written"
+            elif g.row_count != n or g["x"].as_array().tolist() != list(range(n)) or \
+                    g["y"].as_array().tolist() != ["s%d" % i for i in range(m)]:
+                bad = "reads_back_different"
+        elif what == "eq_rows":
+            # == / != of objects whose arrays differ in length only, at every level, both directions
+            def build_(k):
+                d = pdbx.BinaryCIFData(np.zeros(k, dtype=np.int32))
+                d.serialize()
+                c = pdbx.BinaryCIFColumn(d, pdbx.BinaryCIFData(np.zeros(k, dtype=np.uint8)))
+                cat = pdbx.BinaryCIFCategory({"x": c})
+                blk = pdbx.BinaryCIFBlock({"c": cat})
+                f = pdbx.BinaryCIFFile({"b": blk})
+                file_bytes(f) if k else None
+                return [d, c, cat, blk, f]
+            for a, b in zip(build_(n), build_(m)):
+                if ((a == b) != (n == m)) or ((b == a) != (n == m)) or ((a != b) != (n != m)):
+                    bad = "eq_wrong_for_%s" % type(a).__name__
+                    break
+        elif what == "eq_keys":
+            # the other container has more / fewer keys (superset / subset), both directions
+            def build_(k):
+                cat = pdbx.BinaryCIFCategory({"k%d" % i: np.array([1, 2], dtype=np.int32) for i in range(k)})
+                blk = pdbx.BinaryCIFBlock({"c%d" % i: pdbx.BinaryCIFCategory({"x": np.array([1], dtype=np.int32)})
+                                           for i in range(k)})
+                f = pdbx.BinaryCIFFile({"b%d" % i: pdbx.BinaryCIFBlock() for i in range(k)})
+                return [cat, blk, f]
+            for a, b in zip(build_(n), build_(m)):
+                if ((a == b) != (n == m)) or ((b == a) != (n == m)):
+                    bad = "eq_wrong_for_%s" % type(a).__name__
+                    break
+        elif what == "explicit_row_count":
+            # H: row_count given explicitly (m) and present in the columns (n rows).  Precedence is not documented:
+            # what is written must be consistent (rowCount == rows of the columns) or the call refuses.
+            cat = pdbx.BinaryCIFCategory({"x": np.arange(n, dtype=np.int32)}, row_count=m)
+            g = pdbx.BinaryCIFFile.read(io.BytesIO(fbytes(cat)))["b"]["c"]
+            if g.row_count != n or g["x"].as_array().tolist() != list(range(n)):
+                bad = "written_row_count_differs_from_columns"
+        elif what == "explicit_src_type":
+            # H: src_type / type given explicitly (type code m) and present as the dtype of the data (dtype index n)
+            dt = INT_DTYPES[n]
+            tc = INT_TCS[m]
+            lo, hi = M.DTYPE_RANGE[dt]
+            for vals in ([0, 1, 1], [min(hi, 200), 3, 3], [max(lo, -100), 0, 0], [hi, hi, 0] if hi <= 2**32 - 1 else [2**32 - 1, 0, 0]):
+                arr = np.array(vals, dtype=dt)
+                fits = M.fits(vals, tc)
+                for spec in ([D(src_type=tc), B()], [R(src_type=tc), B()], [B(tc)], [D(src_type=tc), R(), P(2), B()]):
+                    v = M.int_chain(vals, M.DTYPE_TC[dt], spec, np_range=M.DTYPE_RANGE[dt], np_name=dt)
+                    if v.cls == "skip":
+                        continue
+                    direct, filed, _ = run_paths(arr, spec)
+                    if direct is None:
+                        continue
+                    for res in (direct, filed):
+                        if res[0] == "exc":
+                            refused = True
+                            if fits and v.cls == "accept":
+                                bad = "explicit_type_that_holds_the_values_refused|%s" % chain_sig(spec)
+                        elif as_int_list(res[1]) != vals:
+                            bad = "explicit_type_altered_values|%s" % chain_sig(spec)
+                        elif spec[0][0] in "DR" and res[1].dtype != np.dtype(M.TC_NAME[tc]):
+                            bad = "decoded_dtype_is_not_the_explicit_src_type|%s" % chain_sig(spec)
+    except Exception as ex:  # noqa: BLE001
+        if want_refusal:
+            refused = True
+        else:
+            bad = "raised_%s" % type(ex).__name__
+    if bad:
+        ctx.violation("operands:%s|%s|%s" % (what, bad, "second_larger" if m > n else ("second_smaller" if m < n else "same_size")),
+                      "operands of different size / a value given in two places are mishandled", case)
+    ctx.count("refusable" if want_refusal else "accepted")
+    if refused:
+        ctx.count("refused_observed")
+    ctx.ev(1, 1)
+    ctx.outcome(("opd", what, n, m, bad, refused))
+
+
+def run_operands_shard(shard, ctx):
+    for what in ("column_mask", "category_columns", "category_columns_assigned", "eq_rows", "eq_keys", "explicit_row_count"):
+        for n in range(0, 4):
+            for m in range(0, 4):
+                operands_case(ctx, what, n, m)
+    for n in range(len(INT_DTYPES)):
+        for m in range(len(INT_TCS)):
+            operands_case(ctx, "explicit_src_type", n, m)
+
+
+# ---- ambient state -------------------------------------------------------------
+AMBIENT_MODES = ["ignore", "warn", "raise", "warnings_as_errors", "printoptions"]
+# unchanged tree, statement silent: with floating point errors / warnings turned into exceptions, compress() of a
+# denormal raises (underflow in `tol * abs(array)`); every other listed case gives the default result in every mode
+AMBIENT_MAY_RAISE = {("float_tiny", -1)}
+AMBIENT_ARRAYS = {
+    "int": ("int32", [70000, -1, -1, 3]),
+    "uint8": ("uint8", [0, 255, 7, 7]),
+    "float": ("float64", [1234.5678, 0.001, -3.0, 0.0]),
+    "float32": ("float32", [1.5, -2.25, 100.125, 0.0]),
+    "float_wide": ("float64", [1e-3, 3e9]),          # compress(): fixed point impossible -> ByteArray
+    "float_tiny": ("float64", [5e-324, 1.0]),        # compress(): decimal places beyond the float range -> ByteArray
+    "float32_wide": ("float32", [1e-30, 1234.5678]),
+    "zeros": ("float64", [0.0, -0.0, 0.0]),
+    "str": ("U3", ["a", "", "é b", "a"]),
+}
+AMBIENT_CHAINS = {"int": [[D(), R(), P(2), B()]], "uint8": [[R(), P(1), B()]], "float": [[F(1000), D(), B()], [Q(-5.0, 2000.0, 2006), B()]],
+                  "float32": [[F(100), B()], [B(F64)]], "float_wide": [[B()]], "float_tiny": [[B(F64)]], "float32_wide": [[B()]],
+                  "zeros": [[F(10), B()]], "str": [[REUSE_STR_SPECS["deep"]]]}
+
+
+def ambient_case(ctx, key, mode, ci):
+    """G: the only ambient state the anchored code depends on is numpy's floating point error handling and
+    the warnings filter (no clock, cwd, environment, locale).  The harness owns both and switches them."""
+    import warnings as _w
+
+    dtype, vals = AMBIENT_ARRAYS[key]
+    chain = None if ci < 0 else AMBIENT_CHAINS[key][ci]
+    case = {"k": "ambient", "a": key, "mode": mode, "ci": ci}
+    if not ctx.journal(case):
+        return
+    arr = np.array(vals, dtype=dtype)
+
+    def run():
+        return flavour_result(arr.copy(), "compress" if chain is None else chain)
+
+    old_err = np.geterr()
+    old_print = np.get_printoptions()
+    try:
+        np.seterr(all="ignore")
+        with _w.catch_warnings():
+            _w.simplefilter("ignore")
+            ref = run()
+        with _w.catch_warnings():
+            if mode in ("ignore", "warn", "raise"):
+                np.seterr(all=mode)
+                _w.simplefilter("default" if mode == "warn" else "ignore")
+            elif mode == "warnings_as_errors":
+                np.seterr(all="warn")
+                _w.simplefilter("error")
+            else:
+                np.set_printoptions(precision=1, threshold=2, suppress=True)
+                _w.simplefilter("ignore")
+            state = (np.geterr(), np.get_printoptions(), list(_w.filters))
+            got = with_cpu_limit(CPU_LIMIT, run)
+            got = got[1] if got[0] == "ok" else ("exc", "CpuLimit")
+            left_changed = (np.geterr(), np.get_printoptions(), list(_w.filters)) != state
+    finally:
+        np.seterr(**old_err)
+        np.set_printoptions(**old_print)
+    bad = None
+    if left_changed:
+        bad = "call_changed_global_error_state_or_warning_filters"
+    elif ref[0] == "ok" and got[0] == "ok":
+        if ref[1] != got[1] or not same_array(ref[2], got[2]):
+            bad = "result_depends_on_ambient_state"
+    elif ref[0] == "ok" and got[0] == "exc":
+        if mode in ("ignore", "printoptions", "warn"):
+            bad = "raised_%s" % got[1]
+        elif (key, ci) in AMBIENT_MAY_RAISE:
+            ctx.count("unspecified_raises_under_strict_error_state")  # statement silent; listed in the notes
+        else:
+            bad = "raised_%s_under_strict_error_state" % got[1]
+    elif ref[0] == "exc" and got[0] == "ok":
+        bad = "refused_by_default_accepted_under_%s" % mode
+    if bad:
+        ctx.violation("ambient:%s|%s|%s,%s" % (mode, bad, key, "compress" if chain is None else chain_sig(chain) if key != "str" else "StringArray"),
+                      "result depends on numpy's error state / warnings filter / print options", case)
+    ctx.count("accepted")
+    ctx.ev(1, 1)
+    ctx.outcome(("amb", key, mode, ci, got[0]))
+
+
+def run_ambient_shard(shard, ctx):
+    for key in AMBIENT_ARRAYS:
+        for mode in AMBIENT_MODES:
+            for ci in range(-1, len(AMBIENT_CHAINS[key])):
+                ambient_case(ctx, key, mode, ci)
+
+
+# ---- ties of the quantities compress() compares ----------------------------------
+TIE_TOLS = [0.0, 1e-12, 0.2, 0.5, 1.0, 10.0]
+TIE_ARRAYS = [[2.5, 2.5], [0.5, 1.5], [2.5, 3.5, -2.5], [1e-3, 1.0], [0.0, 0.0], [0.0, 5.0], [-4.0, -4.0],
+              [1.0, 1.0, 1.0, 1.0], [0.125, 0.375]]
+
+
+def ties_case(ctx, ti, ai, dtype):
+    """I: compress() selects decimal places by `error < tol * |x|` and encodings by `size < smallest`.  Values
+    whose rounding error equals the tolerance exactly (round-half-even ties), all-equal / all-zero arrays,
+    tolerances 0, tiny, >= 1.  Oracle: the statement (within the tolerance, zero stays zero)."""
+    tol, vals = TIE_TOLS[ti], TIE_ARRAYS[ai]
+    case = {"k": "ties", "ti": ti, "ai": ai, "dtype": dtype}
+    if not ctx.journal(case):
+        return
+    arr = np.array(vals, dtype=dtype)
+    r = with_cpu_limit(CPU_LIMIT, compress_roundtrip, arr, tol)
+    bad = None
+    if r[0] != "ok":
+        bad = "did_not_terminate"
+    elif r[1][0] == "exc":
+        bad = "%s_raised_%s" % (r[1][1], r[1][2])
+    else:
+        got = r[1][1]
+        ctx.count("compress_chose:" + "+".join(r[1][2]))
+        if not exact_or_tol(arr, got, tol) or any(x == 0 and d != 0 for x, d in zip(arr.tolist(), got.tolist())):
+            bad = "outside_tolerance"
+    if bad:
+        ctx.violation("ties:compress|%s|tol_%s,%s" % (bad, "zero" if tol == 0 else ("ge_1" if tol >= 1 else "lt_1"), dtype),
+                      "compress() at a boundary of its selection rules", case,
+                      observed=None if r[0] != "ok" or r[1][0] == "exc" else repr(r[1][1])[:100])
+    ctx.count("accepted")
+    ctx.ev(1, 1)
+    ctx.outcome(("tie", ti, ai, dtype, r[1][2:] if r[0] == "ok" and r[1][0] == "ok" else bad))
+
+
+def run_ties_shard(shard, ctx):
+    for ti in range(len(TIE_TOLS)):
+        for ai in range(len(TIE_ARRAYS)):
+            for dtype in ("float64", "float32"):
+                ties_case(ctx, ti, ai, dtype)
+
+
+def audit3_replay(case, ctx):
+    k = case["k"]
+    if k == "operands":
+        return operands_case(ctx, case["what"], case["n"], case["m"])
+    if k == "ambient":
+        return ambient_case(ctx, case["a"], case["mode"], case["ci"])
+    return ties_case(ctx, case["ti"], case["ai"], case["dtype"])
+
+
+# ---------------------------------------------------------------------------
 # contract
 # ---------------------------------------------------------------------------
 def bounds(tier):
@@ -3500,6 +3775,9 @@ def shards(tier, seed):
     add(2, s="lazy")
     out.append({"s": "identity"})
     out.append({"s": "values"})
+    out.append({"s": "operands"})
+    out.append({"s": "ambient"})
+    out.append({"s": "ties"})
     for kind in ("int", "float", "str"):
         out.append({"s": "derived", "kind": kind})
     # the seed rotates the processing order inside the leading (integer) block only
@@ -3546,6 +3824,12 @@ def _run_shard(shard, ctx):
         run_lazy_shard(shard, ctx)
     elif s == "identity":
         run_identity_shard(shard, ctx)
+    elif s == "operands":
+        run_operands_shard(shard, ctx)
+    elif s == "ambient":
+        run_ambient_shard(shard, ctx)
+    elif s == "ties":
+        run_ties_shard(shard, ctx)
     elif s == "values":
         run_values_shard(shard, ctx)
     elif s == "derived":
@@ -3581,6 +3865,8 @@ def replay(case, ctx):
         audit_replay(case, ctx)
     elif k in ("identity", "values", "derived"):
         audit2_replay(case, ctx)
+    elif k in ("operands", "ambient", "ties"):
+        audit3_replay(case, ctx)
     else:
         raise ValueError(case)
 
